@@ -93,18 +93,29 @@ public:
                                 QStringLiteral("isConnected()/state() report a session on connection %1 although the server's completing element has not been delivered on it").arg(w.linkIndex()));
                 }
             };
+            // applications commonly re-issue a request from its completion handler when it failed (30 % of the runs)
+            const bool retryPolicy = mix64(plan.seed, 0x7e7c) % 100 < 30;
+            int retriesLeft = 6;
+            std::function<void(const QString &)> issueOne = [&](const QString &to) {
+                QXmppIq iq(QXmppIq::Get);
+                iq.setTo(to);
+                auto t = std::make_shared<TrackedIq>();
+                t->issuedOnLink = w.linkIndex();
+                t->id = iq.id();
+                iqs.append(t);
+                w.client->sendIq(std::move(iq)).then(&ctx, [&, t, to](QXmppClient::IqResult &&r) {
+                    t->fired++;
+                    t->error = std::holds_alternative<QXmppError>(r);
+                    if (retryPolicy && t->error && t->fired == 1 && retriesLeft > 0 && w.client) {
+                        --retriesLeft;
+                        w.probe("request_reissued_from_its_completion_handler");
+                        issueOne(to);
+                    }
+                });
+            };
             auto issueIqs = [&](int n) {
                 for (int i = 0; i < n; ++i) {
-                    QXmppIq iq(QXmppIq::Get);
-                    iq.setTo(QStringLiteral("peer%1@remote.example/x").arg(i));
-                    auto t = std::make_shared<TrackedIq>();
-                    t->issuedOnLink = w.linkIndex();
-                    t->id = iq.id();
-                    iqs.append(t);
-                    w.client->sendIq(std::move(iq)).then(&ctx, [t](QXmppClient::IqResult &&r) {
-                        t->fired++;
-                        t->error = std::holds_alternative<QXmppError>(r);
-                    });
+                    issueOne(QStringLiteral("peer%1@remote.example/x").arg(i));
                 }
                 settle();
             };
